@@ -97,11 +97,15 @@ def make_layout(c):
         w = 32 if lay['datatype'] == 'F' else 64
         lay['bits'] = [w] * D
         lay['ranges'] = [c.get('frange', 262144)] * D
-        lay['events'] = float_rows(lay['datatype'], D, n)
+        lay['events'] = float_rows(lay['datatype'], D, c.get('nbig') or n)
     else:
         lay['bits'] = list(c['widths'])
         lay['ranges'] = [rng_of(w, k) for w, k in zip(lay['bits'], c['rk'])]
         lay['events'] = int_rows(lay['bits'], n)
+        if c.get('nbig'):
+            # many events: a multiplicative-hash ramp so that every row differs from its neighbours in every byte
+            lay['events'] = [[((i * 2654435761 + j * 40503 + 1) ^ (i >> 3)) % (2 ** w) for j, w in enumerate(lay['bits'])]
+                             for i in range(c['nbig'])]
     if c.get('stext'):
         lay['stext'] = [('SUPP1', 'x'), ('SUPP2', 'y' + lay['delim'])]
         lay['stext_pos'] = c['stext']
@@ -237,6 +241,21 @@ def cases(tier, seed):
                         c = dict(base)
                         c.update(version=version, analysis=an, pad_before={segname: off}, n=2)
                         yield c
+    # many events (a reader that works through the DATA segment in blocks has seams at multiples of its block size): counts around the
+    # usual block sizes, on the byte-assembling path, the uniform path and the float path
+    bigs = (65537, 131075) if tier == 'quick' else (10001, 32769, 65535, 65536, 65537, 100001, 131075, 262145, 1000001, 1048577)
+    for nb in bigs:
+        for base in (dict(kind='int', widths=[24, 24], byteord='4,3,2,1', rk=['full', 'full']),
+                     dict(kind='int', widths=[8, 24], byteord='1,2,3,4', rk=['full', 'npot']),
+                     dict(kind='int', widths=[32, 16], byteord='1,2,3,4', rk=['full', 'full']),
+                     dict(kind='int', widths=[16, 16], byteord='2,1', rk=['full', 'smaller']),
+                     dict(kind='float', datatype='F', D=2, byteord='1,2,3,4')):
+            for off in ('header', 'text'):
+                if off == 'text' and nb not in (65537, 1048577):
+                    continue
+                c = dict(base)
+                c.update(nbig=nb, offsets=off)
+                yield c
     # (C) refused layouts: each must raise
     refusals = [('mode', 'H'), ('mode', 'C'), ('mode', 'U'), ('datatype', 'A'),
                 ('byteord', '3,4,1,2'), ('byteord', '2,1,4,3'), ('byteord', '2,3,1,4'),
@@ -255,7 +274,8 @@ def cases(tier, seed):
 def bounds(tier, seed):
     return {'complete_product_D': [1, 2] if tier == 'quick' else [1, 2, 3],
             'many_parameters_D': [9, 10, 11, 13] if tier == 'quick' else [9, 10, 11, 12, 13, 20, 21, 23, 100, 101, 111],
-            'deviation_bound': 2 if tier == 'quick' else 3}
+            'deviation_bound': 2 if tier == 'quick' else 3,
+            'many_events': [65537, 131075] if tier == 'quick' else [10001, 32769, 65535, 65536, 65537, 100001, 131075, 262145, 1000001, 1048577]}
 
 
 def run_case(c):
